@@ -168,7 +168,7 @@ typedef std::vector<Op> History;
 // Can the constexpr interpreter (engine/ce.hpp) replay this operation?
 inline bool ce_supported (const Op& o)
 {
-  if (o.f1 || o.f2 || o.kind == OP_AT)
+  if (o.f1 || o.f2 || o.kind == OP_AT || o.kind >= OP2_SELF_COPY_ASSIGN)
     return false;
   if (o.kind == OP_INS_RANGE || o.kind == OP_ASSIGN_RANGE || o.kind == OP_APPEND_RANGE || o.kind == OP_CTOR_RANGE)
   {
